@@ -9,7 +9,7 @@
    wr       : write_model; read_model  (the reloaded copy continues the history)
    adduser  : read_user_lexicon on both copies *)
 EXTENDS VModel, VRewrite, VTemplate, Json, IOUtils, TLCExt
-CONSTANTS Prop, DevStarCollision
+CONSTANTS Prop, DevStarCollision, DevMergeNoBigram
 
 Rec == ndJsonDeserialize(IOEnv.TRACE)
 VARIABLES l, tin, m, M, mext,       \* inputs, model, merged model, and the extension history the model event belongs to
@@ -132,7 +132,19 @@ Gen ==
       /\ memo' = memo \cup keyed
    /\ UNCHANGED <<tin, m, M, mext, ext, users, hasDisk>>
 
-Next == TSession \/ ModelEv \/ WR \/ AddUser \/ Gen
+(* a training session without any trained model (the configuration could not be trained) *)
+TrainErr == /\ Is("train_err") /\ UNCHANGED <<tin, m, M, mext, ext, users, hasDisk, memo>>
+
+(* named deviation MergeNoBigram (F25, known finding): the model kept no bigram weight at all
+   (rucrf's bigram_weight_indices is empty) but a feature set added by read_user_lexicon carries
+   a bigram feature id; rucrf::RawModel::merge indexes bigram_weight_indices[0] and panics, so
+   write_dictionary / write_bigram_details cannot be called.  Consumed only when switched on. *)
+MergeNoBigramSig == /\ m # <<>> /\ m.bwi = <<>>
+                    /\ \E i \in 1..Len(m.fs) : (\E k \in 1..Len(m.fs[i].r) : m.fs[i].r[k] # 0) \/ (\E k \in 1..Len(m.fs[i].l) : m.fs[i].l[k] # 0)
+PanicMerge == /\ Is("panic") /\ DevMergeNoBigram /\ MergeNoBigramSig
+              /\ UNCHANGED <<tin, m, M, mext, ext, users, hasDisk, memo>>
+
+Next == TSession \/ ModelEv \/ WR \/ AddUser \/ Gen \/ TrainErr \/ PanicMerge
 Spec == Init /\ [][Next]_vars
 Accepted ==
    LET d == TLCGet("stats").diameter IN
